@@ -78,21 +78,6 @@ Definition run_c18 := run_sm proj_c18 mon_c18.
 (* C11: requests, replies and everything that decides the reply or depends on the request's options *)
 Definition proj_c11 (a : action) : bool :=
   match a with ARequest _ _ | AReply _ _ | APolicy _ _ | AEvent (EvState _) | AEvent (EvResult _) | AInstaller IReboot _ => true | _ => false end.
-(* run-time addition to step11: an on-demand request sent while the machine waits for the reboot must lead to the
-   reboot question being asked again (as on-demand) before the next ping goes out *)
-Record q11x := { base11 : q11; askdue11 : bool }.
-Definition step11x (q : q11x) (a : action) : option q11x :=
-  match step11 (base11 q) a with
-  | None => None
-  | Some b =>
-      let keep := Some {| base11 := b; askdue11 := askdue11 q |} in
-      match a with
-      | ARequest _ OnDemand => match ph11_ (base11 q) with P11Reboot => Some {| base11 := b; askdue11 := true |} | _ => keep end
-      | APolicy (QRebootAllowed OnDemand) _ | AEvent (EvState Idle) => Some {| base11 := b; askdue11 := false |}
-      | AHttp _ _ => if askdue11 q then None else keep
-      | _ => keep
-      end
-  end.
 Definition mon_c11 (c : smcase) (t : list action) : bool :=
   match c with KSm ep _ _ _ _ e _ _ =>
     match ep with
